@@ -18,7 +18,9 @@ ASSUMPTIONS = [
 REQ = b"GET /idle HTTP/1.0\r\nHost: localhost\r\nX-Pad: aaaaaaaaaaaaaaaaaaaaaaaaaaaaaaaa\r\n\r\n"
 # an HTTP/1.1 request that declines persistence: its head arrives whole, its body trickles in and stalls short of its length
 HEAD11 = b"POST /idle HTTP/1.1\r\nHost: localhost\r\nConnection: close\r\nContent-Length: 40\r\n\r\n"
+HEAD11TE = HEAD11.replace(b"Connection: close", b"Connection: TE, close")     # the close option among several
 BODY11 = b"b" * 40
+APPFEED = [b""]     # what the streaming application yields at its next step (set by the harness tick by tick)
 TICK = 0.5
 
 
@@ -32,7 +34,8 @@ def RULE(tier):
             "%d ticks, silent / 1 byte: all 2^%d timings). Oracle per tick: the connection is closed (peer sees EOF, tables empty) "
             "exactly when the server serviced at tyme >= last traffic + tymeout; a connection with traffic in every window is never "
             "closed. The same for the other direction: the whole request arrives at once and the response drains with the kernel "
-            "accepting 0 / 1 / 2 bytes per tick; and for the body of an HTTP/1.1 'Connection: close' request trickling in after its head. Each "
+            "accepting 0 / 1 / 2 bytes per tick; for the body of an HTTP/1.1 'Connection: close' (also 'TE, close') request trickling in after its head; and for a "
+            "streaming application that yields nothing or one byte per service pass (all 2^n output timings). Also with the server wound to the clock only after the connection was accepted. Each "
             "with the servant built by http.Server from its own parameters and with a servant handed in that has a wire log attached. "
             "The tree of timings is enumerated completely." % ((13, 13) if tier == "quick" else (16, 16)))
 
@@ -50,12 +53,32 @@ def jobs(tier):
     js += [("C12", tls, 1.0, 9, 3, "body") for tls in (False, True)] + [("C12", tls, 2.5, long_ticks, 2, "body") for tls in (False, True)]
     # each of them with the servant built by http.Server itself, and with a servant handed in that has a wire log attached
     js = [j + (build,) for j in js for build in ("own", "given+wl")]
+    for tls in (False, True):
+        for tymeout, nt, no in ((1.0, 9, 3), (2.5, long_ticks, 2)):
+            # the close option as one of several connection options
+            js.append(("C12", tls, tymeout, nt, no, "body-te", "own"))
+            # the server is wound to the clock only after the connection was accepted
+            js.append(("C12", tls, tymeout, nt, no, "up", "own+latewind"))
+            # a streaming application that yields nothing (b'') or one byte per service pass: all 2^n output timings
+            for build in ("own", "given+wl"):
+                js.append(("C12", tls, tymeout, nt, 2, "app", build))
     return sharded(js, 8)
 
 
 def app(environ, start_response):
+    if environ.get("PATH_INFO") == "/stream":      # never ends on its own: one step per service pass
+        start_response("200 OK", [("Content-Type", "text/plain")])
+        return _stream()
     start_response("200 OK", [("Content-Length", "2")])
     return [b"ok"]
+
+
+def _stream():
+    while True:
+        yield APPFEED[0]
+
+
+REQSTREAM = b"GET /stream HTTP/1.0\r\nHost: localhost\r\n\r\n"
 
 
 class DrainPolicy(fakenet.Policy):
@@ -79,7 +102,7 @@ def harness(job, ch):
     tymist = tyming.Tymist(tyme=0.0, tock=TICK)
     with fakenet.Installed(net):
         kw = dict(port=6101, tymeout=tymeout, app=app)
-        if build == "own":       # http.Server builds its servant from its own parameters
+        if build.startswith("own"):       # http.Server builds its servant from its own parameters
             if tls:
                 server = http.Server(host="127.0.0.1", scheme="https", context=fakenet.FakeSSLContext(net), **kw)
             else:
@@ -94,7 +117,8 @@ def harness(job, ch):
             else:
                 servant = tcpserving.Server(host="127.0.0.1", port=6101, tymeout=tymeout, tymth=tymist.tymen(), wl=wl)
             server = http.Server(servant=servant, **kw)
-        server.wind(tymist.tymen())
+        if build != "own+latewind":
+            server.wind(tymist.tymen())
         escaped = None
         assert server.reopen()
         raw = net.socket()
@@ -104,12 +128,15 @@ def harness(job, ch):
             server.service()          # accept (+ handshake) at tyme 0
         except Exception as ex:
             escaped = (tcpsys.site_of(ex), type(ex).__name__)
+        if build == "own+latewind":   # the clock arrives after the connection
+            server.wind(tymist.tymen())
+        APPFEED[0] = b""
         last = 0.0                    # tyme of last traffic (connection establishment counts)
         sent = 0
         req = REQ
-        if direction == "body":       # the head is there from the start (tyme 0), the body is what trickles
+        if direction in ("body", "body-te"):       # the head is there from the start (tyme 0), the body is what trickles
             req = BODY11
-            raw.send(HEAD11)
+            raw.send(HEAD11 if direction == "body" else HEAD11TE)
             try:
                 server.service()
             except Exception as ex:
@@ -119,7 +146,13 @@ def harness(job, ch):
         for k in range(nticks):
             tymist.tick()
             t = tymist.tyme
-            if direction in ("up", "body"):
+            if direction == "app":
+                if k == 0:
+                    raw.send(REQSTREAM)
+                n = ch.choose(nopts, "tick%d" % k)
+                pattern.append(n)
+                APPFEED[0] = b"x" if n else b""
+            elif direction in ("up", "body", "body-te"):
                 n = ch.choose(nopts, "tick%d" % k) if sent < len(req) else 0
                 pattern.append(n)
                 if n and not raw.rx_eof and not raw.closed:
@@ -146,7 +179,7 @@ def harness(job, ch):
             closed = (srv_sock is None) or srv_sock.closed
             in_tables = bool(server.servant.ixes) or bool(getattr(server.servant, "cxes", {})) or bool(server.reqs)
             states.append((k, n, traffic, closed, in_tables, round(t - last, 3)))
-            complete = sent >= len(req) if direction in ("up", "body") else False
+            complete = sent >= len(req) if direction in ("up", "body", "body-te") else False
             if complete:
                 break                  # request fully delivered: the exchange ends by the non-persistent rule, not by idleness
             idle_for = t - last        # before accounting this tick's traffic
@@ -155,14 +188,14 @@ def harness(job, ch):
             if closed and closed_at is None:
                 closed_at = t
                 if idle_for < tymeout:   # (bytes flushed by the closing call itself are not traffic that keeps it alive)
-                    viol.append(("closed-while-active:%s%s" % ("tls" if tls else "plain", ":response-draining" if direction == "down" else ":body" if direction == "body" else ""),
+                    viol.append(("closed-while-active:%s%s" % ("tls" if tls else "plain", ":response-draining" if direction == "down" else ":body" if direction.startswith("body") else ":app-streaming" if direction == "app" else ""),
                                  "tymeout %s: connection closed at tyme %s, last traffic at %s (pattern %s)" % (tymeout, t, last if traffic else t - idle_for, pattern)))
                 if in_tables:
                     viol.append(("closed-but-in-tables", "socket closed at %s but server tables still hold the connection" % t))
                 break
             if not closed and not traffic and idle_for >= tymeout:
                 viol.append(("idle-not-closed:%s:%s%s" % ("late" if _closes_later(server, tymist, raw, 8) else "never", "tls" if tls else "plain",
-                                                           ":response-stalled" if direction == "down" else ":body-stalled" if direction == "body" else ""),
+                                                           ":response-stalled" if direction == "down" else ":body-stalled" if direction.startswith("body") else ":app-stalled" if direction == "app" else ""),
                              "tymeout %s: no traffic since tyme %s, serviced at %s, connection still open (pattern %s)" % (tymeout, last, t, pattern)))
                 break
         if escaped:
